@@ -244,6 +244,12 @@ def run_case(case, col=None):
             continue
         if col:
             col.cls("executed")
+        if r.verdict == "fail" and r.panic == "LIMIT":
+            # the generated argument values exceed an AVM resource limit (e.g. 2048 bytes of inner ApplicationArgs): the
+            # call cannot be made at all - not a statement about PyTeal's marshalling
+            if col:
+                col.cls("discard:avm-resource-limit")
+            continue
         if r.verdict != "approve":
             out.append(("run-failed:%s" % r.panic, "cfg=%s: %s: %s\n%s" % (cfg, sig_of(m), diff.describe_result(r), diff.short_teal(val, 70))))
             break
